@@ -208,15 +208,25 @@ func isAtomicType(t types.Type) bool {
 
 // fieldAddrOf returns the FieldAddr a value denotes (through pointer-typed field loads for *atomic.X fields).
 func fieldAddrOf(v ssa.Value) *ssa.FieldAddr {
+	var fa *ssa.FieldAddr
 	switch v := v.(type) {
 	case *ssa.FieldAddr:
-		return v
+		fa = v
 	case *ssa.UnOp: // load of a pointer-typed field, e.g. consumedSeq *atomic.Int64
-		if fa, ok := v.X.(*ssa.FieldAddr); ok {
-			return fa
+		if x, ok := v.X.(*ssa.FieldAddr); ok {
+			fa = x
 		}
 	}
-	return nil
+	// an atomic wrapper embedding another atomic type (go.uber.org/atomic.Value embeds sync/atomic.Value):
+	// name the outermost atomic-typed field
+	for fa != nil {
+		outer, ok := fa.X.(*ssa.FieldAddr)
+		if !ok || !isAtomicType(outer.Type()) {
+			break
+		}
+		fa = outer
+	}
+	return fa
 }
 
 // AtomicOp describes a call x.f.Method(...) on an atomic-typed field.
